@@ -7,6 +7,7 @@
 package main
 
 import (
+	"path/filepath"
 	"encoding/json"
 	"fmt"
 	"os"
@@ -105,6 +106,7 @@ func runOne(prop string, conf an.Config) (rep *an.Report) {
 	rep.Count("load.module_packages", len(p.Pkgs))
 	rep.Count("load.in_scope_functions", len(p.Funcs))
 	pi.Run(p, rep)
+	an.ApplyImports(p, rep)
 	return
 }
 
@@ -119,6 +121,7 @@ func main() {
 	}
 	cmd := os.Args[1]
 	o := parse(os.Args[2:])
+	an.KnownPath = filepath.Join(o.verif, "known_findings.json")
 	switch cmd {
 	case "dump-fn":
 		// dump-fn <rel-pkg> <recv|-> <name>
